@@ -129,14 +129,6 @@ func (k Key) ValidateChannel(ch *Channel) bool {
 	target := uint32(k[16])<<24 | uint32(k[17])<<16 | uint32(k[18])<<8 | uint32(k[19])
 	targetPath := uint32(k[12])<<16 | uint32(k[13])<<8 | uint32(k[14])
 
-	// Retro-compatibility: if there's no depth specified we default to a single-level validation
-	if targetPath == 0 {
-		if target == 1325880984 { // Key target was "#/" (1325880984 == hash(""))
-			return true
-		}
-		return target == ch.Target()
-	}
-
 	// Trim right `/`
 	if topic[len(topic)-1] == '/' {
 		topic = topic[:len(topic)-1]
@@ -150,28 +142,44 @@ func (k Key) ValidateChannel(ch *Channel) bool {
 		parts = parts[0 : len(parts)-1]
 	}
 
-	maxDepth := 0
+	// Retro-compatibility: if there's no depth specified we default to a single-level validation
+	if targetPath == 0 {
+		if target == 1325880984 { // Key target was "#/" (1325880984 == hash(""))
+			return true
+		}
+
+		if target == ch.Target() {
+			return true
+		}
+
+		// A target which only has '+' parts before its '#/' has an empty path as well
+		for depth, wildcards := 1, "+"; depth <= len(parts); depth, wildcards = depth+1, wildcards+"/+" {
+			if hash.OfString(wildcards) == target {
+				return true
+			}
+		}
+
+		return false
+	}
+
+	// The depth up to which the target has literal parts. The target may be
+	// deeper than that, as trailing '+' parts leave no bit in the path.
+	minDepth := 0
 	for i := uint32(0); i < 23; i++ {
 		if ((targetPath >> i) & 1) == 1 {
-			maxDepth = 23 - int(i)
+			minDepth = 23 - int(i)
 			break
 		}
 	}
 
-	// If no depth defined, all the parts in key target were wildcards (+)
-	// We need to compare the key hash with the whole channel we received.
-	if maxDepth == 0 {
-		maxDepth = len(parts)
-	}
-
-	// Get the first bit, whether the key is the exact match or not
-	keyIsExactTarget := ((targetPath >> 23) & 1) == 1
-	if len(parts) < maxDepth || (keyIsExactTarget && len(parts) != maxDepth) {
+	if len(parts) < minDepth {
 		return false
 	}
 
+	// Replace everything which is not a literal part of the target by '+', a
+	// wildcard in the channel is not acceptable where the target is literal.
 	for idx, part := range parts {
-		if ((targetPath >> (22 - uint32(idx))) & 1) == 1 {
+		if idx < 23 && ((targetPath>>(22-uint32(idx)))&1) == 1 {
 			if part == "+" {
 				return false
 			}
@@ -180,10 +188,22 @@ func (k Key) ValidateChannel(ch *Channel) bool {
 		}
 	}
 
-	newChannel := strings.Join(parts[0:maxDepth], "/")
+	// Get the first bit, whether the key is the exact match or not. The hash of
+	// an exact target covers all of its parts, hence the depth must be the same.
+	keyIsExactTarget := ((targetPath >> 23) & 1) == 1
+	if keyIsExactTarget {
+		return hash.OfString(strings.Join(parts, "/")) == target
+	}
 
-	h := hash.OfString(newChannel)
-	return h == target
+	// For a '#/' target the channel can be deeper than the target, whose own
+	// depth is at least the one of its last literal part.
+	for depth := minDepth; depth <= len(parts); depth++ {
+		if hash.OfString(strings.Join(parts[0:depth], "/")) == target {
+			return true
+		}
+	}
+
+	return false
 }
 
 // SetTarget sets the target channel for the key.
